@@ -1040,7 +1040,9 @@ class Translator:
                 if pred in ('eq', 'ne'):
                     e = '((void*)%s %s (void*)%s)' % (a.c, ICMP[pred], b.c)
                 else:
-                    e = '((uintptr_t)%s %s (uintptr_t)%s)' % (a.c, ICMP[pred], b.c)
+                    # native pointer comparison: within one object CBMC compares (signed) offsets, so a pointer one-before or
+                    # one-past the object still orders correctly (an integer comparison of CBMC's pointer encoding would not)
+                    e = '__VX_PCMP(%s, %s, %s)' % (a.c, ICMP[pred], b.c)
             elif pred[0] == 's':
                 e = '(%s %s %s)' % (s.sval(rt, a.c), ICMP[pred], s.sval(rt, b.c))
             else:
